@@ -550,7 +550,7 @@ func (fv *FuncVC) frameObligation() {
 	allowed := map[string]bool{}
 	allowAll := false
 	if con.HasAssigns {
-		for _, it := range con.Assigns {
+		for _, it := range fv.expandAssigns(con.Assigns, pkgOf(fv.fn)) {
 			switch {
 			case it.All:
 				allowAll = true
@@ -735,9 +735,25 @@ func VerifyLemma(v *Verifier, l *Lemma, prop string) *FuncVC {
 		if step.Call {
 			key := l.Pkg + "::" + normalizeFuncKey(step.Fun)
 			fn := v.funcsByKey[key]
+			var recvArg []SExpr
+			if fn == nil {
+				// m.Method(...) on a lemma parameter
+				if i := strings.Index(step.Fun, "."); i > 0 {
+					if rv, ok := names[step.Fun[:i]]; ok && rv.T != nil {
+						ms := v.prog.MethodSets.MethodSet(rv.T)
+						for k := 0; k < ms.Len(); k++ {
+							if ms.At(k).Obj().Name() == step.Fun[i+1:] {
+								fn = v.prog.MethodValue(ms.At(k))
+							}
+						}
+						recvArg = []SExpr{&SIdent{step.Fun[:i]}}
+					}
+				}
+			}
 			if fn == nil {
 				engineErr("call of unknown function %s", step.Fun)
 			}
+			step.Args = append(recvArg, step.Args...)
 			con := v.contracts[fn]
 			if con == nil {
 				engineErr("lemma calls %s which has no contract", step.Fun)
@@ -755,6 +771,10 @@ func VerifyLemma(v *Verifier, l *Lemma, prop string) *FuncVC {
 			}
 			res := fv.applyContract(fr, st, "true", fn, con, args, nil, fv.resultType(fn), step.Clause.Pos)
 			names[step.Name] = res
+			continue
+		}
+		if step.Assume {
+			fv.ctx.Assume(fv.evalClause(env, step.Clause))
 			continue
 		}
 		fv.oblige("lemma", clauseLabel(step.Clause), "true", fv.evalClause(env, step.Clause), step.Clause.Text, step.Clause.Pos)
